@@ -1513,6 +1513,7 @@ pub fn worker(input: &Value) -> Value {
                       "violations": violations, "harness_errors": harness_errors, "samples": samples});
     }
     let mut run = shard;
+    let mut abandoned_runs = 0;
     while run < runs {
         // fault-free and fault-injecting configurations alternate
         let faulty = run % 2 == 1;
@@ -1535,6 +1536,14 @@ pub fn worker(input: &Value) -> Value {
         states.insert(rep.state_digest);
         if let Some(h) = &rep.harness_error {
             harness_errors.push(json!({"what": h, "scenario": sc.to_json()}));
+            // circuit breaker (see cellsim::worker): two runs abandoned by the watchdog end the worker
+            if h.contains(crate::run::WATCHDOG) {
+                abandoned_runs += 1;
+                if abandoned_runs >= 2 {
+                    harness_errors.push(json!({"what": "worker stopped after two abandoned runs"}));
+                    break;
+                }
+            }
         }
         if run % 50 == shard % 50 {
             let again = run_scenario(&sc);
